@@ -8,6 +8,7 @@ import (
 	"os"
 	"sort"
 	"strings"
+	"time"
 
 	"golang.org/x/tools/go/ssa"
 )
@@ -32,6 +33,7 @@ type Decision struct {
 	Choice  int
 	N       int
 	Frozen  bool // part of a donated prefix: never flipped by this worker
+	Unchecked bool // flipped alternative whose feasibility has not been checked yet
 }
 
 type InputRec struct {
@@ -87,7 +89,11 @@ type Exec struct {
 	assertSym int // ... with a symbolic condition (solver-decided)
 	unknowns  []string
 
-	modelCache Model
+	model      Model
+	failModel  Model
+	arithInt   bool
+	intSolved  int
+	modelStale bool
 	gaddr      map[*ssa.Global]uint64
 	curFrame   *frame
 	panicStack []*frame
@@ -127,13 +133,15 @@ func (ex *Exec) resetPath() {
 	ex.trace = nil
 	ex.pathSym = false
 	ex.writes = 0
-	ex.modelCache = nil
+	ex.model = Model{}
+	ex.modelStale = false
 	ex.gaddr = nil
 	ex.curFrame = nil
 	ex.unknowns = nil
 	ex.panicStack = nil
 	ex.callStack = nil
 	ex.stepLimit = 0
+	ex.arithInt = false
 	ex.globalsFrozen = ""
 	ex.tracing = false
 }
@@ -464,17 +472,6 @@ func flatScalar(t types.Type) bool {
 
 // ---------- decisions ----------
 
-func (ex *Exec) assume(c *Term) {
-	if c.IsConst() {
-		if !c.Bool() {
-			panic(pathEnd{"assume", ""})
-		}
-		return
-	}
-	ex.pc = append(ex.pc, c)
-	ex.solver.Assert(c)
-}
-
 // feasible reports whether PC ∧ c is satisfiable (Unknown counts as feasible).
 func (ex *Exec) feasible(c *Term) bool {
 	if c.IsConst() {
@@ -484,7 +481,56 @@ func (ex *Exec) feasible(c *Term) bool {
 	return v != Unsat
 }
 
-// branch decides a symbolic condition, forking when both sides are feasible.
+func (ex *Exec) inputVars() []*Term {
+	var vars []*Term
+	for _, in := range ex.inputs {
+		for _, t := range in.Term {
+			if t != nil && !t.IsConst() {
+				vars = append(vars, t)
+			}
+		}
+	}
+	return vars
+}
+
+// evalModel evaluates a term under the current model (a satisfying assignment of the path condition).
+func (ex *Exec) evalModel(t *Term) *Term {
+	if ex.model == nil {
+		ex.model = Model{}
+	}
+	return Eval(t, ex.model, map[*Term]*Term{})
+}
+
+// extend adds c to the path condition, refreshing the model if the current one does not satisfy c.
+// Returns false if PC ∧ c is unsatisfiable.
+func (ex *Exec) extend(c *Term, knownByModel bool) bool {
+	if !knownByModel {
+		v, m := ex.solve(c, ex.inputVars())
+		if v == Unknown && ex.W != nil {
+			v = ex.W.portfolio(ex, c)
+			m = nil
+			if v == Sat {
+				ex.modelStale = true
+			}
+		}
+		if v == Unsat {
+			return false
+		}
+		if v == Sat && m != nil {
+			ex.model = m
+		}
+		if v == Unknown {
+			ex.unknowns = append(ex.unknowns, ex.curHarness+": branch feasibility unknown "+ex.solver.lastErr)
+			panic(pathEnd{"unknown", "branch feasibility"})
+		}
+	}
+	ex.pc = append(ex.pc, c)
+	ex.solver.Assert(c)
+	return true
+}
+
+// branch decides a symbolic condition. The side satisfied by the current model is taken without a solver
+// call; the other side is recorded as an open alternative and checked for feasibility when it is explored.
 func (ex *Exec) branch(c *Term) bool {
 	if c.IsConst() {
 		return c.Bool()
@@ -496,27 +542,71 @@ func (ex *Exec) branch(c *Term) bool {
 		if d.Kind != 'b' {
 			panic(fmt.Sprintf("trail desync: expected branch, got %c", d.Kind))
 		}
-		if d.Taken {
-			ex.assume(c)
-		} else {
-			ex.assume(Not(c))
+		side := c
+		if !d.Taken {
+			side = Not(c)
 		}
+		if d.Unchecked {
+			d.Unchecked = false
+			if !ex.extend(side, false) {
+				panic(pathEnd{"infeasible", ""})
+			}
+			return d.Taken
+		}
+		ex.extendReplay(side)
 		return d.Taken
 	}
-	ft := ex.feasible(c)
-	ff := ex.feasible(Not(c))
-	if !ft && !ff {
-		panic(pathEnd{"assume", "infeasible"})
-	}
-	d := &Decision{Kind: 'b', Taken: ft, AltOpen: ft && ff}
+	taken := ex.evalModel(c).Bool()
+	d := &Decision{Kind: 'b', Taken: taken, AltOpen: true}
 	ex.trail = append(ex.trail, d)
 	ex.pos++
-	if d.Taken {
-		ex.assume(c)
+	if taken {
+		ex.extend(c, true)
 	} else {
-		ex.assume(Not(c))
+		ex.extend(Not(c), true)
 	}
-	return d.Taken
+	return taken
+}
+
+// extendReplay re-asserts a side already known feasible; the model is refreshed lazily.
+func (ex *Exec) extendReplay(side *Term) {
+	ex.pc = append(ex.pc, side)
+	ex.solver.Assert(side)
+	if ex.model != nil && !ex.evalModel(side).Bool() {
+		ex.model = nil
+		ex.modelStale = true
+	}
+}
+
+// ensureModel makes sure ex.model satisfies the path condition (needed before model-guided decisions).
+func (ex *Exec) ensureModel() {
+	if !ex.modelStale {
+		return
+	}
+	ex.modelStale = false
+	if v, m := ex.solve(nil, ex.inputVars()); v == Sat {
+		ex.model = m
+	} else {
+		ex.model = Model{}
+	}
+}
+
+// assume adds a harness/engine assumption; an unsatisfiable one ends the path.
+func (ex *Exec) assume(c *Term) {
+	if c.IsConst() {
+		if !c.Bool() {
+			panic(pathEnd{"assume", ""})
+		}
+		return
+	}
+	ex.ensureModel()
+	if ex.evalModel(c).Bool() {
+		ex.extend(c, true)
+		return
+	}
+	if !ex.extend(c, false) {
+		panic(pathEnd{"assume", "unsatisfiable assumption"})
+	}
 }
 
 // choice forks n ways on a concrete value.
@@ -548,7 +638,7 @@ func (ex *Exec) pick(t *Term) uint64 {
 	}
 	ex.pathSym = true
 	for n := 0; ; n++ {
-		if n > 4096 {
+		if n > 70000 {
 			ex.unsupported("too many concretisations of one term")
 		}
 		if ex.pos < len(ex.trail) {
@@ -559,26 +649,26 @@ func (ex *Exec) pick(t *Term) uint64 {
 			}
 			c := Eq(t, &Term{Op: "const", S: t.S, C: d.Val})
 			if d.Taken {
-				ex.assume(c)
+				ex.extendReplay(c)
 				return d.Val
 			}
-			ex.assume(Not(c))
+			if d.Unchecked {
+				d.Unchecked = false
+				if !ex.extend(Not(c), false) {
+					panic(pathEnd{"infeasible", ""})
+				}
+				continue
+			}
+			ex.extendReplay(Not(c))
 			continue
 		}
-		// ask the solver for a value
-		if ex.solver.Check() == Unsat {
-			panic(pathEnd{"assume", "infeasible"})
-		}
-		val, ok := ex.solver.ValueOf(t)
-		if !ok {
-			ex.unsupported("solver gave no value for concretisation")
-		}
+		ex.ensureModel()
+		val := ex.evalModel(t).C
 		c := Eq(t, &Term{Op: "const", S: t.S, C: val})
-		alt := ex.feasible(Not(c))
-		d := &Decision{Kind: 'v', Taken: true, AltOpen: alt, Val: val}
+		d := &Decision{Kind: 'v', Taken: true, AltOpen: true, Val: val}
 		ex.trail = append(ex.trail, d)
 		ex.pos++
-		ex.assume(c)
+		ex.extend(c, true)
 		return val
 	}
 }
@@ -605,11 +695,11 @@ func (ex *Exec) fail(id, msg string) {
 			}
 		}
 	}
-	var m Model
-	if len(vars) > 0 {
-		if ex.solver.Check() == Sat {
-			m = ex.solver.Model(vars)
-		} else {
+	m := ex.failModel
+	ex.failModel = nil
+	if m == nil && len(vars) > 0 {
+		var v Verdict
+		if v, m = ex.solve(nil, vars); v != Sat {
 			m = Model{}
 		}
 	}
@@ -642,30 +732,24 @@ func (ex *Exec) vassert(id string, c *Term) {
 	}
 	ex.assertSym++
 	ex.pathSym = true
-	ex.solver.Push()
-	ex.solver.Assert(Not(c))
-	errs := ex.solver.Stats.Errors
-	v := ex.solver.Check()
-	if ex.solver.Stats.Errors != errs {
-		v = Unknown
-	}
+	v, m := ex.solve(Not(c), ex.inputVars())
 	if v == Unknown && ex.W != nil {
 		v = ex.W.portfolio(ex, Not(c))
+		m = nil
 	}
 	switch v {
 	case Sat:
-		// keep ¬c asserted while extracting the model
 		ex.pc = append(ex.pc, Not(c))
-		defer ex.solver.Pop()
+		ex.solver.Assert(Not(c))
+		ex.failModel = m
 		ex.fail(id, "assertion can be false")
 	case Unsat:
 		if ex.W != nil && ex.W.crossCheck {
 			ex.W.cross(ex, Not(c), id)
 		}
-		ex.solver.Pop()
-		ex.assume(c)
+		ex.pc = append(ex.pc, c)
+		ex.solver.Assert(c)
 	default:
-		ex.solver.Pop()
 		ex.unknowns = append(ex.unknowns, ex.curHarness+"/"+id+": solver unknown "+ex.solver.lastErr)
 		panic(pathEnd{"unknown", id})
 	}
@@ -1256,7 +1340,9 @@ func (ex *Exec) checkAlloc(n *Term, elem types.Type) {
 		}
 		if !n.IsConst() {
 			// keep symbolic sizes sane even without an explicit bound
-			if ex.feasible(BVCmp("bvslt", i64(1<<26), n)) {
+			if v, m := ex.solve(BVCmp("bvslt", i64(1<<26), n), ex.inputVars()); v != Unsat {
+				ex.solver.Assert(BVCmp("bvslt", i64(1<<26), n))
+				ex.failModel = m
 				ex.fail("alloc-unbounded", "allocation size is input-controlled and can exceed 2^26 elements")
 			}
 		}
@@ -1271,10 +1357,9 @@ func (ex *Exec) checkAlloc(n *Term, elem types.Type) {
 	}
 	ex.asserts++
 	ex.assertSym++
-	if ex.solver.CheckWith(over) != Unsat {
-		ex.solver.Push()
+	if v, m := ex.solve(over, ex.inputVars()); v != Unsat {
 		ex.solver.Assert(over)
-		defer ex.solver.Pop()
+		ex.failModel = m
 		ex.fail("alloc-bound", fmt.Sprintf("allocation size is input-controlled and can exceed %d elements", ex.allocBound))
 	}
 }
@@ -1388,7 +1473,7 @@ func (ex *Exec) freshInput(name string, kind string, sorts []Sort) *InputRec {
 	full := fmt.Sprintf("%s#%d", name, k)
 	r := &InputRec{Name: full, Kind: kind}
 	for i, s := range sorts {
-		vn := fmt.Sprintf("v_%s_%d_%d", sanitize(name), k, i)
+		vn := fmt.Sprintf("v_%s_%d_%d_w%d", sanitize(name), k, i, s.W)
 		r.Term = append(r.Term, mkVar(vn, s))
 	}
 	ex.inputs = append(ex.inputs, r)
@@ -1424,3 +1509,44 @@ func sortedKeys(m map[string]bool) []string {
 }
 
 var _ = os.Exit
+
+// solve decides PC ∧ extra. In integer-arithmetic mode (declared by the harness with vArith) the whole path
+// condition is rendered as wrapped integer arithmetic first; anything that rendering cannot express, or an
+// unknown answer, falls back to the bit-vector path.
+func (ex *Exec) solve(extra *Term, vars []*Term) (Verdict, Model) {
+	qlog := os.Getenv("VERIF_QLOG") != ""
+	if !ex.arithInt {
+		return ex.solver.Solve(extra, vars)
+	}
+	// integer-arithmetic mode: race the wrapped-integer rendering (z3 5.1) against bit-vector back ends
+	pc := ex.pc
+	if extra != nil {
+		pc = append(append([]*Term{}, ex.pc...), extra)
+	}
+	ex.solver.Push()
+	defer ex.solver.Pop()
+	if extra != nil {
+		ex.solver.Assert(extra)
+	}
+	for _, v := range vars {
+		ex.solver.declareVars(map[string]*Term{v.Name: v})
+	}
+	bv := ex.solver.bvScript(vars)
+	tl := fmt.Sprintf("%d", ex.solver.hardTimeout)
+	var rs []racer
+	if script, ok := RenderIntScript(pc, vars); ok {
+		rs = append(rs, racer{name: "z3-new/int", argv: []string{"z3-new", "-in", "-t:" + tl}, script: script, strip: "_i"})
+	}
+	rs = append(rs,
+		racer{name: "cvc5/bv-as-int", argv: []string{"cvc5", "--lang=smt2", "--solve-bv-as-int=sum", "--produce-models", "--tlimit=" + tl}, script: "(set-logic ALL)\n" + bv},
+		racer{name: "z3/bv", argv: []string{"z3", "-in", "-t:" + tl}, script: bv})
+	t0 := time.Now()
+	v, m, who := ex.solver.race(rs, len(vars) > 0, time.Duration(ex.solver.hardTimeout+2000)*time.Millisecond)
+	if qlog {
+		fmt.Fprintf(os.Stderr, "QLOG race %s by %s %.2fs\n", v, who, time.Since(t0).Seconds())
+	}
+	if v != Unknown {
+		ex.intSolved++
+	}
+	return v, m
+}
